@@ -55,10 +55,9 @@ CHECKS = {
    text='Machine-checked proof (Coq) over a model of == / != / hash for every Haystack value kind under Python\'s rich-comparison protocol (each class\'s __eq__/__ne__, NotImplemented, '
         'reflected operand, subclass-first rule, identity fall-back): on all scalar kinds == is symmetric, != is its exact complement, == is reflexive for NaN-free values, the only exception is '
         'TypeError for two Quantities of different units, Uri/Bin/str with equal text are pairwise unequal and != says so, a Ref with and without display name differ, equal values of one kind have '
-        'equal hash keys; Grid.__eq__ never raises, a grid equals a faithful copy, grids with different row counts / names are unequal, and equality implies every pair of cells is of one kind and within tolerance. '
+        'equal hash keys; FOR ALL VALUES, lists and dicts nested to any depth included (C19_containers_*): != is the exact complement of ==, == raises nothing but TypeError and never runs out of fuel, == is reflexive (NaN-free values with unique dict keys), exactly symmetric on nested lists, and symmetric on every value whenever neither order raises (a dict is compared in the order of the left operand\'s keys, so with two mismatches one of which raises the two orders differ: C19_containers_dict_order is that witness and Python does the same). Grid.__eq__ never raises, a grid equals a faithful copy, grids with different row counts / names are unequal, and equality implies every pair of cells is of one kind and within tolerance. '
         'Tied to the code by all ordered pairs of an 86-value catalogue (==, !=, _approx_check, hash) and 7000+ grid pairs.',
-   note='PARTIAL: the theorems are proved for flat (scalar) values; the same statements for lists and dicts are not proved and are covered by the correspondence only (identity shortcuts of '
-        'container comparison are not modelled; NaN inside containers excluded). Numbers are exact (m*2^e); _approx_check tolerance is modelled with the exact difference (no rounding of v1 - v2). '
+   note='PARTIAL: the identity shortcut of container comparison (x is y before x == y) is not modelled, so NaN inside containers is excluded from reflexivity; the grid theorems are about grids of flat values. Numbers are exact (m*2^e); _approx_check tolerance is modelled with the exact difference (no rounding of v1 - v2). '
         'Builtin equality of str/int/float/datetime, tzinfo equality, hash() of builtins are CPython oracles. copy/deepcopy of the singletons is checked on the implementation only. '
         'Print Assumptions: closed under the global context.',
    technique='Coq proof by case analysis over the kind lattice + correspondence on all ordered pairs of a catalogue',
@@ -78,9 +77,9 @@ CHECKS = {
  'C05': dict(
    text='Machine-checked proof (Coq): WHOLE OBJECTS - a grid object {meta, cols, rows} (meta with a string ver member anywhere, column objects with a string name member anywhere, row objects with any members - rows may leave columns out -, rows possibly missing or null) '
         'is read by the reader model as the grid it denotes, a member denoting the value its scalar / nested reading returns (C05_whole_object; induction over metadata members, columns, rows; nested lists / dicts / grids by C02_values). Per spelling: the JSON reader model decodes the legal spellings beyond the writer\'s own: both Remove spellings, raw JSON numbers/booleans/null, strings without s: (second character not a colon), '
-        'times without seconds, n:INF/-INF/NaN, numbers with and without unit; further clauses as evaluated examples. Tied by the reader model vs hszinc.parse on documents of an independent grammar-directed writer '
+        'times without seconds, with seconds and with a fraction of any length (C05_time_fraction: the first six digits count), n:INF/-INF/NaN, numbers in any spelling - sign, digits, optional fraction of any length, optional exponent e / E with optional sign, optional unit (C05_number_spellings), the prefixed text kinds, references with or without display name, dates, coordinates, extended strings, date-times with Z or a numeric offset, with or without a zone name, with or without a fraction of any length (C05_datetime_spellings); further clauses as evaluated examples. Tied by the reader model vs hszinc.parse on documents of an independent grammar-directed writer '
         '(value x independently chosen spelling, 4 input forms) and on 56 odd/malformed spellings.',
-   note='Missing and null `rows` are proved to denote no rows (C05_rows_missing, C05_rows_null). PARTIAL: exponent forms, fractions of other lengths and Z date-times are not proved, only exercised. '
+   note='Missing and null `rows` are proved to denote no rows (C05_rows_missing, C05_rows_null). PARTIAL: what a date-time text denotes (iso8601 / pytz) is the oracle of the tie. '
         '"The caller\'s object is never modified" is vacuous in a functional model: checked on the implementation by deep snapshot only. '
         'Lower-case z in JSON date-times and nested grids without a rows key are outside the property\'s list and are not generated. Print Assumptions: closed under the global context.',
    technique='Coq proofs about regex-matcher models + correspondence on independently written documents',
@@ -97,33 +96,33 @@ CHECKS = {
         'any number of rows, every cell and metadata value a string, URI, finite number / quantity of the written shape, valid date, time, null, marker, Remove, NA, boolean, reference with or without display name, Bin, coordinate, extended string (type names not starting with T F N M R I B C), or a list, dict or NESTED GRID (itself with metadata) of such values, '
         'nested to any depth, the text the model of the ZINC dumper writes is read back by the model of the reader\'s grid rule, of parse_grid (version sniffing included) and of parser.parse (C01_document: trailing-newline normalisation, grid splitting) as exactly that grid. '
         'By induction over metadata items, columns, rows, cells and nesting depth; every kind goes through the WHOLE per-version scalar alternation (pyparsing Or = longest match over 13 / 18 alternatives: the date, time, date-time and extended-string rules that also start with digits never win over a number, '
-        'the number rule reading leading digits loses to a date or time, NA wins over N). Date-times are proved per kind (C01_datetime: the written text is read back, through the whole alternation, as the raw ISO text and zone name; their interpretation is the iso8601 / pytz oracle); multi-grid documents are proved at the level of parser.parse / dumper.dump (C01_multi_grid); version 2.0 grids without metadata over the 2.0 kinds are proved too (C01_grid_2_0: the 2.0 alternation and the reader\'s version gate); date-times inside whole grids and 2.0 grids with metadata are decided by the tie (writer model = hszinc.dump text, reader model = hszinc.parse value, on generated grids) '
-        'and by the round-trip search on the implementation with a kind-strict comparator.',
-   note='PARTIAL: the general theorem covers 3.0 grids over the kinds listed (every kind but date-times); date-times inside grids and 2.0 grids with metadata are covered by tie + search only. Number texts are CPython tokens (str(float) / float() are oracles), date-times are compared by instant, offset and zone name through pytz as oracle. '
+        'the number rule reading leading digits loses to a date or time, NA wins over N). Date-times are proved per kind (C01_datetime: the written text is read back, through the whole alternation, as the raw ISO text and zone name; their interpretation is the iso8601 / pytz oracle); multi-grid documents are proved at the level of parser.parse / dumper.dump (C01_multi_grid); version 2.0 grids over the 2.0 kinds are proved too, without metadata (C01_grid_2_0) and WITH grid and column metadata (C01_grid_2_0_with_metadata: the 2.0 alternation, the reader\'s version gate over metadata, column metadata and cells, the writer under the pre-3.0 rules); whole 3.0 grids with DATE-TIME CELLS are proved in two-sided form (C01_full_grid_with_datetimes: each cell is a pair written value / value read - the value itself for every other kind, the raw ISO text and zone name for a date-time). The tie (writer model = hszinc.dump text, reader model = hszinc.parse value, on generated grids) '
+        'and the round-trip search on the implementation with a kind-strict comparator decide the rest.',
+   note='PARTIAL: date-times are proved as cells of whole grids and per kind, not yet inside lists / dicts / metadata (tie + search there); what a date-time text denotes is the iso8601 / pytz oracle. Number texts are CPython tokens (str(float) / float() are oracles), date-times are compared by instant, offset and zone name through pytz as oracle. '
         'pyparsing itself is modelled by typed combinators (Or = longest match, first on ties; parse actions; no implicit whitespace skipping as hszinc configures it). Print Assumptions: closed under the global context.',
    technique='Coq proof about combinator model of the pyparsing grammar + extracted-model correspondence (dump text, parse value) + round-trip search',
    design='DESIGN.md §3 C01'),
  'C03': dict(
    text='Machine-checked proof (Coq): WHOLE DOCUMENTS - a 3.0 document of version line, column line (distinct names) and any number of rows of comma-separated cells is read by the model of the grid rule as exactly the grid it denotes, '
         'whatever spelling each cell uses, provided the scalar rule reads the cell\'s value from its text before a comma / line end / bracket (C03_whole_document; with grid and column metadata: C03_whole_document_with_metadata; version 2.0 with the reader\'s version gate: C03_whole_document_2_0; one or several grids per document through parser.parse: C03_documents; rows in any spelling the row rule reads - plain, with blanks around the commas and before the line end, with empty cells as nulls, ended by CR LF: C03_whole_document_any_rows, C03_row_spellings); that proviso is proved for every string and URI with every legal escape, every number spelling '
-        '(sign, digits, fraction, exponent e / e+ / e-, unit), every date and time, the letter scalars, plain references, lists, dicts and nested grids of such elements to any depth. Also: final newline optional for every document, empty input gives no grid, LF and CRLF line ends, z/Z, '
+        '(sign, digits, fraction, exponent e / e+ / e-, unit), every date and time, the letter scalars, plain references, lists, dicts and nested grids of such elements to any depth. The header line and the column line in other spellings - blanks before and after the colon of each metadata tag, blanks around the commas between columns, blanks before the line ends - are proved for whole grids (C03_header_spellings, C03_header_and_column_spellings); dicts with blanks inside the braces, after the colons and in runs between the tags (C03_dict_spellings); times with a fraction of one to six digits (C03_time_fraction); timestamps with T or t, Z or z or a numeric offset, with or without a zone name (C03_timestamp_spellings, C03_timestamp_case_irrelevant). Also: final newline optional for every document, empty input gives no grid, LF and CRLF line ends, z/Z, '
         '_ digit separators, blanks around commas (per rule); further spellings as evaluated examples. Decided otherwise by the reader model vs hszinc.parse on documents of an independent grammar-directed ZINC writer (value x independently chosen spelling: blanks around commas, '
         'empty cells, _ separators, exponents, INF/-INF/NaN, every escape form, CRLF, trailing commas, T/t, Z/z, with / without zone name and final newline), str and bytes in several charsets, single flag.',
-   note='Number spellings with _ separators and upper-case E (C03_number_spellings_general) and lists with inner blanks / a trailing comma (C03_list_spellings) are proved through the whole alternation. PARTIAL: CRLF after the version and column lines, blanks in the column line, date-times without a zone name and 2.0 documents with metadata are proved per rule only; inside whole documents they rest on the tie + search. The independent writer is harness code (harness/props/c03.py). Charset decoding is CPython\'s. Print Assumptions: closed under the global context.',
+   note='Number spellings with _ separators and upper-case E (C03_number_spellings_general) and lists with inner blanks / a trailing comma (C03_list_spellings) are proved through the whole alternation. PARTIAL: CRLF after the version and column lines is proved per rule only; inside whole documents it rests on the tie + search; what a timestamp text denotes is the iso8601 / pytz oracle. The independent writer is harness code (harness/props/c03.py). Charset decoding is CPython\'s. Print Assumptions: closed under the global context.',
    technique='Coq lemmas about the reader model + correspondence and search on independently written documents',
    design='DESIGN.md §3 C03'),
  'C04': dict(
    text='Machine-checked proof (Coq) about the ZINC writer model: a dumped grid is header line, column line, one line per row and a final newline; every row line holds exactly one cell per column; no line and no cell holds a character below U+0020 '
         '(for every grid without nested grids whose verbatim tokens - names, units, number tokens - are clean); the header is ver:"X" (X the escaped version text); a written string holds only escapes the grammar accepts and is accepted '
         'by the literal rule exactly up to its own closing quote; non-finite numbers are INF, -INF, NaN; 3.0-only kinds are refused under a pre-3.0 version. For every metadata-free 3.0 grid over strings, URIs, numbers, dates, times, letter scalars, plain references and nested lists the emitted text '
-        'is accepted by the model of the grid rule and denotes exactly the grid written (C04_grid_conforms; in general, with metadata, every kind but date-times, dicts and nested grids: C04_grid_conforms_general). Conformance to the Haystack grammar itself '
+        'is accepted by the model of the grid rule and denotes exactly the grid written (C04_grid_conforms; in general, with metadata, every kind but date-times, dicts and nested grids: C04_grid_conforms_general; version 2.0 grids with metadata: C04_grid_conforms_2_0; 3.0 grids with date-time cells, read as date-time tokens carrying exactly the written ISO text and zone name: C04_grid_conforms_datetimes). Conformance to the Haystack grammar itself '
         'is judged on every dumped grid by an independent recursive-descent ZINC reader written from the Haystack grammar (harness/zincspec.py, shares no code with hszinc), which must recover the same grid.',
    note='PARTIAL: conformance to a grammar relation is not proved in Coq (the independent reader is harness code); nested grids are excluded from the layout theorem (their text spans lines by design). Print Assumptions: closed under the global context.',
    technique='Coq proofs about the writer model (layout by induction over rows / cells, control-character freedom by induction over values) + text-equality correspondence + independent reader',
    design='DESIGN.md §3 C04'),
  'C07': dict(
    text='Machine-checked proof (Coq): WHOLE GRIDS IN BOTH FORMATS - a metadata-free 3.0 grid whose cells are strings, URIs, markers, nulls, booleans, NA, Remove or lists / dicts of those comes back as the same grid from the ZINC text and from the JSON object '
-        '(C07_grid_both_formats; in general, with grid and column metadata, nested lists / dicts / grids and every kind both value relations cover: C07_grid_both_formats_general - reader model after writer model is the identity in either format, so parsing one format and dumping the other loses nothing on such grids). PARTIAL beyond that: on text (every code-point list as Str and Uri) each format\'s reader after its writer is the identity, both writers are total, hence any chain of transcodings is lossless '
+        '(C07_grid_both_formats; in general, with grid and column metadata, nested lists / dicts / grids and every kind both value relations cover: C07_grid_both_formats_general; version 2.0 grids with grid and column metadata: C07_grid_both_formats_2_0 - reader model after writer model is the identity in either format, so parsing one format and dumping the other loses nothing on such grids). PARTIAL beyond that: on text (every code-point list as Str and Uri) each format\'s reader after its writer is the identity, both writers are total, hence any chain of transcodings is lossless '
         'and parse-then-dump is idempotent character for character. All other kinds, parser-made objects (fixed-offset tzinfo, non-official versions), purity and determinism of dump are decided by the search on the implementation: '
         'documents of the independent ZINC and JSON writers pushed through parse -> dump (both formats) -> parse -> dump, ZINC->JSON->ZINC and JSON->ZINC->JSON, deep snapshot before / after, two dumps compared.',
    note='PARTIAL (see text). Values a JSON document can carry but ZINC cannot spell (Bin payload / unit / Ref name outside the ZINC alphabets) are outside the shared Haystack value domain and are skipped (counted in the evidence). '
